@@ -604,10 +604,12 @@ func c10Expected(r *c10Rig) (want map[c10Key]string, dup string) {
 				id = p.BGPPath.PathIdentifier
 			}
 			k := c10Key{p: b, id: id}
-			if _, ok := want[k]; ok {
+			v := c10PathView(p, r.sess)
+			if old, ok := want[k]; ok && old != v {
+				// (two stored paths with one identifier AND one advertised form are one route for the peer)
 				dup = k.String()
 			}
-			want[k] = c10PathView(p, r.sess)
+			want[k] = v
 		}
 	}
 	return want, dup
